@@ -516,3 +516,27 @@ func contestedPosition(r *Rng) *rc.Board {
 		}
 	}
 }
+
+// castleRefusedPosition builds a legal position in which the side to move has a castling move
+// that is pseudo-legal (right held, squares between king and rook empty) but not legal (king in
+// check, or transit / target square attacked).
+func castleRefusedPosition(r *Rng) *rc.Board {
+	for {
+		b := synthPosition(r)
+		if b.CastleString() == "-" {
+			continue
+		}
+		legal := map[string]bool{}
+		for _, m := range b.Legal() {
+			legal[m.UCI()] = true
+		}
+		if len(legal) == 0 {
+			continue
+		}
+		for _, m := range b.PseudoLegal() {
+			if m.Kind == rc.Castling && !legal[m.UCI()] {
+				return b
+			}
+		}
+	}
+}
